@@ -188,11 +188,11 @@ impl<'a> CaseGen<'a> {
     }
     fn del(&mut self, p: usize) {
         if let Some(row) = self.pick_row(p, false) {
-            if self.in_batch.is_some() {
-                self.t += 1;
-                let t = self.t;
-                self.push(format!("clock t={}", t));
-            }
+            // a deletion gets a millisecond of its own: two records of one version with one date are the same
+            // bytes (same author) or the same primary key (other author)
+            self.t += 1;
+            let t = self.t;
+            self.push(format!("clock t={}", t));
             let d = self.sig();
             self.push(format!("del p={} row={} dsig={}", p, row, d));
             self.rows.get_mut(&row).unwrap().holders.remove(&p);
